@@ -232,7 +232,7 @@ def _oracle_routes(f, pts, grid):
     # grid
     GV = f.grid_eval(grid)
     GJ = f.grid_jacobian(grid)
-    GH = None if (matrix_valued or not is_f64(f)) else f.grid_hessian(grid)    # (non-float64: finding hessian-coeff-dtype)
+    GH = None if matrix_valued else f.grid_hessian(grid)
     for g in np.ndindex(*[len(a) for a in grid]):
         x = tuple(reversed([float(grid[i][g[i]]) for i in range(n)]))
         sc = O.mag(x, 2)
@@ -532,10 +532,7 @@ def run(ctx):
         grid = tuple(np.array(rand_coord(rng, f.kvs[i], lens[i])) for i in range(n))
         add('geval %s %s' % (fd, info_table(f.kvs, grid, 0)), (lambda: f.grid_eval(grid)), ('geval', f, grid))
         add('gjac %s %s' % (fd, info_table(f.kvs, grid, 1)), (lambda: f.grid_jacobian(grid)), ('gjac', f, grid))
-        if is_f64(f):
-            add('ghess %s %s' % (fd, info_table(f.kvs, grid, 2)), (lambda: f.grid_hessian(grid)), ('ghess', f, grid))
-        else:
-            ctx.count('skipped: grid_hessian with %s coefficients (known finding hessian-coeff-dtype)' % f.coeffs.dtype)
+        add('ghess %s %s' % (fd, info_table(f.kvs, grid, 2)), (lambda: f.grid_hessian(grid)), ('ghess', f, grid))
         # scattered (xyz order)
         npt = int(rng.integers(1, 4))
         P = tuple(np.array(rand_coord(rng, f.kvs[n - 1 - e], npt)) for e in range(n))
